@@ -202,6 +202,7 @@ def write_evidence(ctx, level, harnesses, results, violations, known, errors, ex
     if level == "other" or explanation:
         cov["explanation"] = explanation or ""
     cov["witness_replays_on_real_code_ok"] = getattr(ctx, "witness_replays_ok", 0)
+    cov["second_solver_cross_checks_agreeing"] = getattr(ctx, "cross_checked", 0)
     if extra: cov.update(extra)
     ev = {
         "property_id": pid, "tier": ctx.tier, "seed": ctx.seed, "level": level, "coverage": cov,
@@ -244,6 +245,22 @@ def run_property(mod, pid, tier, seed, level, explanation=None):
                 else:
                     errors.append(r)
                     print("ERROR property=%s harness=%s: witness trace does not pass on the real code (rc=%s): translator/model discrepancy\n%s" % (pid, r["harness"], rp["rc"], rp["out"][-600:]))
+        # second-solver cross-check: a sample of proved harnesses is re-decided by a different back end; verdicts must agree
+        ctx.cross_checked = 0
+        sample = [r for r in results if r["verdict"] == "PROVED" and r.get("s", 0) < 30][: ctx.q(2, 8)]
+        def xc(r):
+            h = byname[r["harness"]]
+            other = "cadical" if (r.get("backend") or "minisat") != "cadical" else "minisat"
+            return r, other, P.run_cbmc(h, witness=h.witness, backend=other, cap=max(60, int(r["s"] * 6) + 30))
+        with cf.ThreadPoolExecutor(max_workers=P.NPROC) as ex:
+            for r, other, rr in ex.map(xc, sample):
+                fw = [f for f in (rr.get("failed") or []) if "witness: end of harness reachable" not in f["text"]]
+                ok = (rr["verdict"] == "REFUTED" and not fw) if byname[r["harness"]].witness else rr["verdict"] == "PROVED"
+                if rr["verdict"] in ("INCONCLUSIVE",): continue
+                if ok: ctx.cross_checked += 1
+                else:
+                    errors.append(r)
+                    print("ERROR property=%s harness=%s: back ends disagree (%s proved, %s says %s %s)" % (pid, r["harness"], r.get("backend"), other, rr["verdict"], fw[:2]))
         write_evidence(ctx, level, harnesses, results, violations + [None] * len(ctx.pre_violations), known, errors, getattr(ctx, "extra", None), explanation)
         n = len(results)
         print("%s tier=%s: %d harnesses, %d proved, %d violations, %d known findings, %d errors, solver %.1fs, wall %.1fs" % (
